@@ -17,6 +17,7 @@
 # Foundation, Inc., 51 Franklin Street, Fifth Floor, Boston, MA  02110-1301
 #
 
+import codecs
 import logging
 logger = logging.getLogger(__name__)
 
@@ -65,6 +66,13 @@ class ServerBase(object):
         method_request string in order to generate contexts.
         """
         try:
+            if in_string_charset is not None:
+                try:
+                    codecs.lookup(in_string_charset)
+                except LookupError:
+                    raise Fault('Client.UnknownCharset', "Unknown request "
+                                      "charset %r" % (in_string_charset,))
+
             # sets ctx.in_document
             self.app.in_protocol.create_in_document(ctx, in_string_charset)
 
